@@ -265,6 +265,7 @@ class QuickSampler:
             self.__circuit.heralds,
             self.input_state,
             self.post_select,
+            [r.as_tuple() for r in getattr(self.post_select, "rules", [])],
             self.photon_counting,
         ]
 
